@@ -33,11 +33,30 @@ def _join_labels(T):
 
 def norm_op(o):
     d = {'name': o['name'], 'relc': ''.join(o.get('relc', []) or []), 'bare': bool(o.get('bare', False)),
-         'pos': int(o.get('pos', 0)), 'preset': o.get('preset', '~')}
+         'pos': int(o.get('pos', 0)), 'preset': o.get('preset', '~'),
+         'keep': [''.join(k) for k in o.get('keep', [])], 'flags': sorted(o.get('flags', [])),
+         'rows': [{'idx': int(r['idx']), 'word': r['word'], 'tag': ''.join(r['tag'])} for r in o.get('rows', [])],
+         'fop': o.get('fop', '~'), 'fval': int(o.get('fval', 0))}
     return d
 
 
-def call_op(mods, o, tree):
+_TF_COUNTER = [0]
+
+
+def _terminal_file(tmpdir, sid, rows):
+    """a fresh file name per call: the transformations cache by file name"""
+    import os
+    _TF_COUNTER[0] += 1
+    fn = os.path.join(tmpdir, 'terms_%d_%d.txt' % (os.getpid(), _TF_COUNTER[0]))
+    with open(fn, 'w') as f:
+        f.write('%d 1 decoy DECOY\n' % (sid + 7))
+        for r in rows:
+            f.write('%d %d %s %s\n' % (sid, r['idx'], r['word'], r['tag']))
+        f.write('%d 2 decoy2 DECOY\n' % (sid + 9))
+    return fn
+
+
+def call_op(mods, o, tree, tmpdir=None):
     tf = mods['transform']
     trees = mods['trees']
     name = o['name']
@@ -48,8 +67,21 @@ def call_op(mods, o, tree):
         params['bare_bin_labels'] = True
     if name == 'mark_heads_by_rules' and o['preset'] != '~':
         params['mark_heads_preset'] = o['preset']
-    if name == 'punctuation_delete':
+    if name == 'punctuation_delete' and 'verbose' not in o['flags']:
         params['quiet'] = True
+    if name == 'ptb_delete_traces':
+        if o['keep']:
+            params['keep'] = ','.join(o['keep'])
+        for fl in ('keepall', 'keepcoindex'):
+            if fl in o['flags']:
+                params[fl] = True
+    if name in ('insert_terminals', 'substitute_terminals'):
+        params['terminalfile'] = _terminal_file(tmpdir, tree.data['sid'], o['rows'])
+        if 'quiet' in o['flags']:
+            params['quiet'] = True
+    if name == 'filter_by_length':
+        params['filteroperator'] = o['fop']
+        params['filtervalue'] = o['fval']
     if name == 'delete_terminal':
         leaf = trees.terminals(tree)[o['pos'] - 1]
         trees.delete_terminal(tree, leaf)
@@ -61,7 +93,8 @@ def record_case(cid, T, ops, mods, seed, origin='tlc', shuffle=True, exotic=True
     mods = mods or treeio.repo_modules()
     rnd = random.Random(seed)
     trees = mods['trees']
-    protect = set(trees.PUNCT) | {'-NONE-'}
+    protect = set(trees.PUNCT) | {'-NONE-'} | {x['a']['word'] for x in T['nodes']
+                                               if x['tok'] and ''.join(x['a']['lab']) == '-NONE-'}
     atoms = treeio.Atoms(seed, exotic=exotic, protect=protect)
     root = treeio.build(_join_labels(T), mods, atoms, rnd if shuffle else None)
     root.data['sid'] = 1
@@ -69,16 +102,22 @@ def record_case(cid, T, ops, mods, seed, origin='tlc', shuffle=True, exotic=True
     G0 = dmp.dump(root)
     events = []
     cur = root
+    import tempfile, shutil
+    tmpdir = tempfile.mkdtemp(prefix='vf_tf_')
     for o in ops:
         o = norm_op(o)
         ev = {'a': o['name'], 'args': {'relc': list(o['relc']),
                                        'bare': 'T' if o['bare'] else 'F',
-                                       'pos': o['pos'], 'preset': o['preset']}}
+                                       'pos': o['pos'], 'preset': o['preset'],
+                                       'keep': [list(k) for k in o['keep']], 'flags': o['flags'],
+                                       'rows': [{'idx': r['idx'], 'word': atoms.abst(r['word']),
+                                                 'tag': list(r['tag'])} for r in o['rows']],
+                                       'fop': o['fop'], 'fval': o['fval']}}
         out = io.StringIO()
         err = io.StringIO()
         try:
             with contextlib.redirect_stdout(out), contextlib.redirect_stderr(err):
-                ret = call_op(mods, o, cur)
+                ret = call_op(mods, o, cur, tmpdir)
             ev['res'] = 'ok'
             ev['exc'] = '~'
             ev['post'] = dmp.dump(ret, also=[cur])
@@ -97,12 +136,17 @@ def record_case(cid, T, ops, mods, seed, origin='tlc', shuffle=True, exotic=True
             events.append(ev)
             break
         events.append(ev)
+    shutil.rmtree(tmpdir, ignore_errors=True)
+    # trace words as characters (ptb_delete_traces parses them)
+    wc = sorted({(x['a']['word'], tuple(treeio.chars(atoms.conc(x['a']['word'])))) for x in T['nodes']
+                 if x['tok'] and ''.join(x['a']['lab']) == '-NONE-'})
     # the graphs of earlier events must list the same indices as later ones
     n = len(dmp.objs)
     for g in [G0] + [e['post'] for e in events if 'post' in e]:
         while len(g['nodes']) < n:
             g['nodes'].append(dead_record(dmp))
-    return {'id': cid, 'origin': origin, 'init': G0, 'events': events}
+    return {'id': cid, 'origin': origin, 'init': G0, 'events': events,
+            'wc': [[w, list(c)] for (w, c) in wc]}
 
 
 def dead_record(dmp):
